@@ -225,6 +225,7 @@ class AsyncTask(futures.FutureBase):
                 return self._generator.send(value)
             else:
                 self._frame = debug.get_frame(self._generator)
+                self.running = True
                 if hasattr(error, "_task"):
                     return self._generator.throw(error._type_, error, error._traceback)
                 else:
